@@ -23,6 +23,7 @@ pub const EV_FCNTL: u8 = 10; // a=fd b=cmd c=arg d=returned
 pub const EV_SIGEMPTYSET: u8 = 11;
 pub const EV_SIGADDSET: u8 = 12; // a=sig
 pub const EV_SIGPROCMASK: u8 = 13; // a=how b=set!=NULL c=old!=NULL
+pub const EV_ERRNO: u8 = 14; // errno was read (only logged when LOG_ERRNO)
 pub const EV_USER: u8 = 32; // harness-defined events start here
 
 #[derive(Copy, Clone)]
@@ -184,6 +185,18 @@ pub extern "C" fn shv_m_sigprocmask(how: c_int, set: *const libc::sigset_t, old:
     r
 }
 
+// ---- ghost state of "the" descriptor a harness hands to the code under contract --------------
+// Kernel facts the models use (ledger A5): send() on an invalid fd fails with EBADF, on a non-socket
+// with ENOTSOCK; fcntl on an invalid fd fails with EBADF; F_SETFL with O_NONBLOCK makes later
+// write()s non-blocking; F_SETFD does not.
+pub static mut FD_MODEL: bool = false; // harness opts in
+pub static mut FD: c_int = -1;
+pub static mut FD_VALID: bool = true;
+pub static mut FD_IS_SOCKET: bool = true;
+pub static mut FD_NONBLOCK: bool = false;
+pub static mut FD_CLOSED: bool = false;
+pub static mut LOG_ERRNO: bool = false;
+
 // send/write/recv: any return value the man pages allow; errno any value on failure.
 pub static mut SEND_RET: Option<isize> = None;
 #[no_mangle]
@@ -198,6 +211,15 @@ pub extern "C" fn shv_m_send(fd: c_int, _buf: *const c_void, len: usize, flags: 
         if r == -1 {
             ERRNO = kani::any();
             kani::assume(ERRNO > 0 && ERRNO < 134);
+        }
+        if FD_MODEL && fd == FD {
+            if !FD_VALID || FD_CLOSED {
+                kani::assume(r == -1 && ERRNO == libc::EBADF);
+            } else if !FD_IS_SOCKET {
+                kani::assume(r == -1 && ERRNO == libc::ENOTSOCK);
+            } else {
+                kani::assume(r != -1 || (ERRNO != libc::EBADF && ERRNO != libc::ENOTSOCK));
+            }
         }
     }
     ret(r as i64);
@@ -243,6 +265,11 @@ pub extern "C" fn shv_m_close(fd: c_int) -> c_int {
     ev(EV_CLOSE, fd as i64, 0, 0, 0, 0);
     let r: c_int = kani::any();
     kani::assume(r == 0 || r == -1);
+    unsafe {
+        if FD_MODEL && fd == FD {
+            FD_CLOSED = true;
+        }
+    }
     ret(r as i64);
     r
 }
@@ -260,6 +287,18 @@ pub extern "C" fn shv_m_fcntl(fd: c_int, cmd: c_int, arg: c_int) -> c_int {
             ERRNO = kani::any();
             kani::assume(ERRNO > 0 && ERRNO < 134);
         }
+        if FD_MODEL && fd == FD {
+            if !FD_VALID || FD_CLOSED {
+                kani::assume(r == -1 && ERRNO == libc::EBADF);
+            } else {
+                if cmd == libc::F_GETFL {
+                    kani::assume(r == FCNTL_GETFL);
+                }
+                if cmd == libc::F_SETFL && r == 0 {
+                    FD_NONBLOCK = (arg & libc::O_NONBLOCK) != 0;
+                }
+            }
+        }
     }
     ev(EV_FCNTL, fd as i64, cmd as i64, arg as i64, r as i64, 0);
     ret(r as i64);
@@ -267,7 +306,12 @@ pub extern "C" fn shv_m_fcntl(fd: c_int, cmd: c_int, arg: c_int) -> c_int {
 }
 #[no_mangle]
 pub extern "C" fn shv_m_errno_location() -> *mut c_int {
-    unsafe { &mut ERRNO as *mut c_int }
+    unsafe {
+        if LOG_ERRNO {
+            ev(EV_ERRNO, ERRNO as i64, 0, 0, 0, 0);
+        }
+        &mut ERRNO as *mut c_int
+    }
 }
 
 /// Makes every model function part of the program Kani verifies (it only compiles what the harness
